@@ -665,11 +665,11 @@ UNITS = [
     U(id="shape_remove", props=["C02"], file="units/trie_shape.c", entry="h_shape_remove", defines=["STUB_IP", "H_ENTRY=h_shape_remove"], enforce=[], plain=True,
       checked_by_assertions=["trie_remove", "replace_node_data", "deref_node"], need_classes=["assertion"],
       kind="bounded: every trie shape of up to 2 (quick) / 3 (thorough) levels below the node", tier_defines={"quick": {"TS_DEPTH": 2}, "thorough": {"TS_DEPTH": 3}},
-      bound=18, unwindset={"trie_remove": {"quick": 3, "thorough": 4}}, native=None, timeout=3000, allow_undefined=True, stubs=["lrtr_ip_addr_*"]),
+      bound=18, unwindset={"trie_remove": {"quick": 3, "thorough": 4}}, native={"only": ["rtrlib/lib/alloc_utils.c"], "libs": ["-lpthread"]}, timeout=3000, allow_undefined=True, stubs=["lrtr_ip_addr_*"]),
     U(id="shape_insert", props=["C02"], file="units/trie_shape.c", entry="h_shape_insert", defines=["STUB_IP", "H_ENTRY=h_shape_insert"], enforce=[], plain=True,
       checked_by_assertions=["trie_insert", "swap_nodes", "add_child_node", "is_left_child"], need_classes=["assertion"],
       kind="bounded: every trie shape of up to 2 (quick) / 3 (thorough) levels below the insertion point", tier_defines={"quick": {"TS_DEPTH": 2}, "thorough": {"TS_DEPTH": 3}},
-      bound=18, unwindset={"trie_insert": {"quick": 4, "thorough": 5}}, native=None, timeout=3000, allow_undefined=True, stubs=["lrtr_ip_addr_*"]),
+      bound=18, unwindset={"trie_insert": {"quick": 4, "thorough": 5}}, native={"only": ["rtrlib/lib/alloc_utils.c"], "libs": ["-lpthread"]}, timeout=3000, allow_undefined=True, stubs=["lrtr_ip_addr_*"]),
     U(id="pfx_swap", props=["C06", "C16"], file="units/swap.c", entry="h_pfx_swap", enforce=["pfx_table_swap"], kind="complete", native=None,
       stubs=["pthread_rwlock_*"]),
     U(id="spki_swap", props=["C06", "C10", "C16"], file="units/spki_swap.c", entry="h_spki_swap", enforce=[], plain=True,
